@@ -250,11 +250,32 @@ func c07Case(t *core.T, long bool) {
 	if t.R.Chance(40) {
 		hint = uint32(t.R.Intn(int(usedIdx[len(usedIdx)-1]) + 2))
 	}
+	// a quarter of the restores come from an exported keystore file instead: the file of a wallet that
+	// had issued every used address and up to two more (made by an instance on an empty chain of its own)
+	route := "mnemonic"
+	ksJSON := ""
+	if t.R.Chance(25) {
+		x := usedIdx[len(usedIdx)-1] + 1 + uint32(t.R.Intn(3))
+		js, kerr := c07KeystoreOf(t, mnemonic, pass, x, G)
+		if kerr != nil {
+			wd.Logf("(keystore file not produced: %v; mnemonic route)", kerr)
+			t.Count("keystore_file_not_produced", 1)
+		} else {
+			ksJSON, route, hint = js, "keystore", x
+		}
+	}
 	t.Eval(1)
-	sum, err := w.W.ImportWalletWithMnemonic(&keystore.WalletParams{Mnemonic: mnemonic, PrivatePassphrase: []byte(pass), Remarks: "restored", ExternalIndex: hint, AddressGapLimit: G})
-	wd.Logf("ImportWalletWithMnemonic(hint %d) at height %d -> %v", hint, n.Height(), err)
+	var sum *masswallet.WalletSummary
+	if route == "keystore" {
+		sum, err = w.W.ImportWallet(ksJSON, pass)
+		wd.Logf("ImportWallet(keystore file with %d issued addresses) at height %d -> %v", hint, n.Height(), err)
+		t.Count("restores_from_a_keystore_file", 1)
+	} else {
+		sum, err = w.W.ImportWalletWithMnemonic(&keystore.WalletParams{Mnemonic: mnemonic, PrivatePassphrase: []byte(pass), Remarks: "restored", ExternalIndex: hint, AddressGapLimit: G})
+		wd.Logf("ImportWalletWithMnemonic(hint %d) at height %d -> %v", hint, n.Height(), err)
+	}
 	if err != nil {
-		fail("restore-failed", fmt.Sprintf("ImportWalletWithMnemonic: %v", err))
+		fail("restore-failed", fmt.Sprintf("import (%s route): %v", route, err))
 		return
 	}
 	if sum.WalletID != k.ID {
@@ -551,13 +572,13 @@ func c07Case(t *core.T, long bool) {
 	t.Count("chain_changes_injected_while_rescan_open", len(injected))
 	t.Max("chain_height", int(n.Height()))
 	if interleaved > 0 && len(injected) > 0 || batches >= 2 {
-		t.Nontrivial(fmt.Sprintf("long%v|held%d|%s|batches%d|hint%d|used%d", long, interleaved, strings.Join(injected, ""), bucket(batches), hint, len(usedIdx)))
+		t.Nontrivial(fmt.Sprintf("long%v|held%d|%s|batches%d|%s%d|used%d", long, interleaved, strings.Join(injected, ""), bucket(batches), route, hint, len(usedIdx)))
 	}
 	ops := wd.Ops
 	if len(ops) > 12 {
 		ops = append(ops[:4], ops[len(ops)-8:]...)
 	}
-	t.Sample(map[string]interface{}{"long_chain": long, "gap_limit": G, "used_indexes": usedIdx, "hint": hint, "held_in": heldMethod, "injected": injected, "batches": batches, "ops": ops})
+	t.Sample(map[string]interface{}{"long_chain": long, "gap_limit": G, "used_indexes": usedIdx, "route": route, "hint": hint, "held_in": heldMethod, "injected": injected, "batches": batches, "ops": ops})
 	_ = masswallet.ErrWalletUnready
 	_ = wire.MaxTxInSequenceNum
 }
@@ -589,4 +610,32 @@ func init() {
 			c07Case(t, t.Index >= p.short)
 		},
 	})
+}
+
+// c07KeystoreOf returns the exported keystore file of the wallet of this mnemonic with x issued
+// addresses, produced by a separate instance that follows an empty chain of its own.
+func c07KeystoreOf(t *core.T, mnemonic, pass string, x, G uint32) (string, error) {
+	dir := filepath.Join(t.Dir, "K")
+	n2, err := sim.NewNode(filepath.Join(dir, "node"))
+	if err != nil {
+		return "", err
+	}
+	defer n2.Close()
+	w2, err := sim.OpenWallet(n2, filepath.Join(dir, "wallet"), sim.NewConfig(G))
+	if err != nil {
+		return "", err
+	}
+	if err := w2.Start(); err != nil {
+		w2.CloseUnstarted()
+		return "", err
+	}
+	defer w2.Stop(30 * time.Second)
+	sum, err := w2.W.ImportWalletWithMnemonic(&keystore.WalletParams{Mnemonic: mnemonic, PrivatePassphrase: []byte(pass), Remarks: "original", ExternalIndex: x, AddressGapLimit: G})
+	if err != nil {
+		return "", err
+	}
+	if !w2.WorkerIdle(30 * time.Second) {
+		return "", fmt.Errorf("import on the empty chain did not finish")
+	}
+	return w2.W.ExportWallet(sum.WalletID, pass)
 }
